@@ -13,6 +13,9 @@ R03.6 every aggregate operator of the grammar has an SQL template that is the SQ
 R03.7 a grouping identifier that the SELECT list computes with an expression (time_agg over the time identifier) is grouped by
       that same expression, in both aggregation paths (grouping by its output name would make DuckDB group by the SOURCE column
       of that name: one group per original period, duplicate identifiers in the result)
+R03.8 the having condition, the aggregate expressions of an aggr clause and computed grouping items (time_agg) are component-level
+      expressions of the operand: each is translated inside a `_clause_scope` of the operand (outside it count() means COUNT(*)
+      instead of "datapoints with a non-null measure", and a component name resolves as a dataset)
 Not decided: the values DuckDB computes; null handling inside DuckDB's aggregates.
 """
 from __future__ import annotations
@@ -210,5 +213,9 @@ def run(rep: Report, tier: str) -> None:  # noqa: C901
         elif e.templates.get(1) != f"{op.upper()}({{0}})":
             rep.add(Finding("R03.6", f"R03.6/template/{op}", "src/vtlengine/duckdb_transpiler/Transpiler/operators.py", e.line, f"registry[{op}]",
                             f"the SQL template of aggregate operator {op} is `{e.templates.get(1)}`, not `{op.upper()}({{0}})`"))
+    # ---- R03.8 having / grouping / aggregate expressions of a clause are translated in the clause scope (shared rule RT.5) ----
+    rep.rule("R03.8", "the having condition, the aggregate expressions of an aggr clause and computed grouping items are translated inside the clause scope of the operand")
+    n_scope = transp.scope_coverage(P, rep, "R03.8", only={"visit_Aggregation", "visit_RegularAggregation_aggr", "_build_agg_group_cols"})
+    rep.floor("R03.8 component-level translations", n_scope, 5)
     rep.assumptions = ["DuckDB's aggregates of the same name implement the VTL aggregate operators (null measure values ignored)",
                        "SQLBuilder.having() conjoins conditions (read from sql_builder.py: _having_conditions.append)"]
